@@ -168,7 +168,9 @@ fn run_c11(t: &mut Tape, _tier: Tier) -> RunOut {
     mix.req.max_headers = 8;
     mix.req.max_pairs = 2;
     mix.req.max_segs = 2;
-    mix.node.requirements = t.chance(3);
+    // (requirement sets are C05's subject: none here, so that an intermediary's extra header is
+    // never a *required* one)
+    mix.node.requirements = false;
     // only headers are re-spelled and edited here; path and query travel in canonical spelling and
     // the untouched original is delivered as a baseline, so a disagreement is the header handling's
     mix.mask = crate::world::NoiseMask {
